@@ -128,7 +128,14 @@ func (s *zzNStore) Del(key []byte) error {
 func zzNHandshakeConfig(store SessionStore, serverName string) *dtlsconfig.HandshakeConfig {
 	cfg := &dtlsconfig.HandshakeConfig{ServerName: serverName, Log: zzNLog{}}
 	if store != nil {
-		hc := newHandshakeConfig(&dtlsConfig{sessionStore: store}, connConfigValues{serverName: serverName, logger: zzNLog{}}, nil)
+		// a connection created by a handshake, or one imported from an exported state (ResumeWithOptions passes the
+		// internal state here): the store is wired in the same way for both, so the imported connection invalidates
+		// its session on a fatal alert like any other
+		var resume *dtlsstate.State
+		if zzsymChoice("imported_connection", 2) == 1 {
+			resume = &dtlsstate.State{}
+		}
+		hc := newHandshakeConfig(&dtlsConfig{sessionStore: store}, connConfigValues{serverName: serverName, logger: zzNLog{}}, resume)
 		cfg.HasSessionStore = hc.HasSessionStore
 		cfg.GetSession, cfg.SetSession, cfg.DelSession = hc.GetSession, hc.SetSession, hc.DelSession
 	}
